@@ -30,8 +30,8 @@ from ..common import MachineryError, time_limit, ImplTimeout
 UNIVERSES = {
     # quick tier: 6 features, 168 kinds, 28 224 ordered pairs
     "U0": ["CONTINUOUS_NUMBERS", "NUMERIC_FLUENTS", "DISCRETE_TIME", "REAL_FLUENTS", "INT_TYPE_DURATIONS", "PROCESSES"],
-    # thorough tier: U1 = U0 + a plain version-1 feature (336 kinds, 112 896 pairs, all same-version triples);
-    # U2..U5 cover the remaining rules of upgrade_1_2
+    # thorough tier: U0 again with all same-version triples; U1 = U0 + a plain version-1 feature (336 kinds,
+    # 112 896 pairs); U2..U5 cover the remaining rules of upgrade_1_2
     "U1": ["NEGATIVE_CONDITIONS", "CONTINUOUS_NUMBERS", "NUMERIC_FLUENTS", "DISCRETE_TIME",
            "REAL_FLUENTS", "INT_TYPE_DURATIONS", "PROCESSES"],
     "U2": ["CONTINUOUS_NUMBERS", "DISCRETE_NUMBERS", "NUMERIC_FLUENTS", "INT_FLUENTS", "REAL_FLUENTS", "EVENTS"],
@@ -319,7 +319,7 @@ def check_universe(ctx, name, U, full, triples, bounds, only=None, coverage=Fals
     if not cases:
         raise MachineryError("no case was replayed")
     if corrupt is not None:  # --selftest: falsify recorded fields, the judge must object
-        corrupt(cases, rec)
+        corrupt(cases, rec, rowrecs)
     cpath, spath, epath, mpath, rpath = (
         os.path.join(d, f) for f in ("cases.ndjson", "states.ndjson", "excs.ndjson", "matrix.ndjson", "rows.ndjson")
     )
@@ -347,11 +347,11 @@ def check_universe(ctx, name, U, full, triples, bounds, only=None, coverage=Fals
     byid = {c["id"]: c for c in cases}
     nfail = 0
     detailed = {}
-    for line in res.stdout.splitlines():
-        # the judge prints ToString(<<"FAIL", id, {<<step, clause, feature, extra>>, ...}>>) on one line
-        m = FAIL_RE.match(line)
-        if not m:
-            continue
+    # the judge prints ToString(<<"FAIL", id, {<<step, clause, feature, extra>>, ...}>>) on one line;
+    # workers print in any order: sort by case id so that reports are deterministic
+    matches = [m for m in map(FAIL_RE.match, res.stdout.splitlines()) if m]
+    for m in sorted(matches, key=lambda m: int(m.group(1))):
+        line = m.group(0)
         c = byid[int(m.group(1))]
         fails = sorted((int(x[0]),) + x[1:] for x in ITEM_RE.findall(m.group(2)))
         if not fails or len(fails) != m.group(2).count("<<"):
@@ -387,7 +387,8 @@ def check_universe(ctx, name, U, full, triples, bounds, only=None, coverage=Fals
 def run(ctx):
     q = ctx.quick
     # (universe, full lub/glb quantification in T1, third-kind rows, compound bound queries)
-    plan = [("U0", False, False, False)] if q else [("U1", False, True, True)] + [(u, True, False, True) for u in ("U2", "U3", "U4", "U5")]
+    plan = ([("U0", False, False, False)] if q
+            else [("U0", True, True, True), ("U1", False, False, False)] + [(u, True, False, True) for u in ("U2", "U3", "U4", "U5")])
     stats = {}
     for i, (name, full, triples, bounds) in enumerate(plan):
         stats[name] = check_universe(ctx, name, UNIVERSES[name], full, triples, bounds, coverage=(not q and i == 0))
@@ -399,8 +400,8 @@ def run(ctx):
         "Non-trivial pair: two different kinds of one version with a <= b. Unspecified: == between kinds of different versions. "
         "Universes: %s." % (
             "quick: lub/glb leastness over one representative per Eq-class, justified by RepOK + EqCongruent" if q
-            else "U1: representatives; U2-U5: lub/glb leastness over all kinds of the version, plus the cross-version bound laws",
-            "" if q else ", a<=a|b, b<=a|b, a&b<=a, a&b<=b on pairs of one version; U1: a|b<=c and c<=a&b for every third kind c of the version (all same-version triples)",
+            else "U1: representatives; U0, U2-U5: lub/glb leastness over all kinds of the version, plus the cross-version bound laws",
+            "" if q else ", a<=a|b, b<=a|b, a&b<=a, a&b<=b on pairs of one version (not U1); U0: a|b<=c and c<=a&b for every third kind c of the version (all same-version triples, a before b)",
             ", ".join("%s=%s" % (p[0], UNIVERSES[p[0]]) for p in plan))
     )
     ctx.cov["exhaustive"] = True
@@ -426,17 +427,17 @@ def replay(ctx, rep):
 
 
 def selftest(ctx):
-    """Vacuity check of the judge: four recorded fields are falsified (one per case, on cases without
-    any finding); the judge must reject exactly those, with the expected clauses."""
+    """Vacuity check of the judge: five recorded fields are falsified (on cases without any finding);
+    the judge must reject exactly those, with the expected clauses."""
     U = UNIVERSES["U0"]
     only = [(1, 5, 0), (5, 1, 0), (5, 5, 0), (1, 1, 0)]  # kinds (None, {}) and (None, {DISCRETE_TIME})
-    check_universe(ctx, "selftest-clean", U, False, False, True, only=only)
+    check_universe(ctx, "selftest-clean", U, False, True, True, only=only)
     if ctx.violations:
         print("selftest: unexpected findings on the clean cases: %s" % sorted({v.sig for v in ctx.violations}))
         return 1
     expect = {}
 
-    def corrupt(cases, rec):
+    def corrupt(cases, rec, rowrecs):
         by = {(c["a"], c["b"]): c for c in cases}
         n = len(rec.states)
 
@@ -453,11 +454,13 @@ def selftest(ctx):
         expect[(5, 5)] = "operand-"
         step((1, 1), 1)[7] ^= 1  # result of ==
         expect[(1, 1)] = "eq|"
+        rowrecs[by[(5, 5)]["rw"] - 1]["ur"][0] ^= 1  # a.union(b) <= c for the first third kind c
+        expect[(5, 5, "rows")] = "le-of-union|"
 
-    check_universe(ctx, "selftest-corrupt", U, False, False, True, only=only, corrupt=corrupt)
+    check_universe(ctx, "selftest-corrupt", U, False, True, True, only=only, corrupt=corrupt)
     rc = 0
-    for pair, prefix in sorted(expect.items()):
-        sigs = sorted({v.sig for v in ctx.violations if tuple(v.data["pair"][:2]) == pair})
+    for pair, prefix in sorted(expect.items(), key=str):
+        sigs = sorted({v.sig for v in ctx.violations if tuple(v.data["pair"][:2]) == pair[:2]})
         ok = any(x.startswith(prefix) for x in sigs)
         print("selftest: falsified case %s -> judge reports %s : %s" % (pair, sigs, "ok" if ok else "NOT DETECTED"))
         rc |= 0 if ok else 1
